@@ -32,6 +32,9 @@ func walkDecided(b *ssa.BasicBlock, stopAt *ssa.BasicBlock, action string, decid
 				if f := core.StaticCallee(ci); f != nil && f.Name() == action {
 					return "action"
 				}
+				if bi, ok := ci.Common().Value.(*ssa.Builtin); ok && "builtin:"+bi.Name() == action {
+					return "action"
+				}
 			}
 		}
 		switch last := b.Instrs[len(b.Instrs)-1].(type) {
@@ -314,4 +317,158 @@ func rejectSet(m map[int64]bool) []int64 {
 	}
 	sort.Slice(out, func(i, j int) bool { return out[i] < out[j] })
 	return out
+}
+
+func init() {
+	core.Register(&core.Rule{
+		Name: "R-PARTITION",
+		Clause: "C13/C07 'after a polygon has been inverted any number of times': Polygon.Invert rebuilds the loop list from three pieces - the inverted loop, its former siblings and its former " +
+			"children - whose index conditions must partition all loop indices: folded over every position of an index relative to (best, lastDescendant(best)), each loop is kept exactly once.",
+		Min: 1,
+		Run: runPartition,
+	})
+}
+
+func runPartition(c *core.Ctx) []core.Obligation {
+	var obs []core.Obligation
+	fn := c.Fn("s2", "Polygon", "Invert")
+	if fn == nil {
+		return append(obs, core.Ob("R-PARTITION", "Polygon.Invert", "-", "", core.Violated, "unresolved anchor"))
+	}
+	var last *ssa.Call
+	core.AllInstrs(fn, func(in ssa.Instruction) {
+		if call, ok := in.(*ssa.Call); ok {
+			if f := core.StaticCallee(call); f != nil && f.Name() == "LastDescendant" {
+				last = call
+			}
+		}
+	})
+	if last == nil {
+		return append(obs, core.Ob("R-PARTITION", "Polygon.Invert", c.Pos(fn.Pos()), core.FuncName(fn), core.Violated, "LastDescendant(best) is no longer computed"))
+	}
+	best := last.Call.Args[1]
+	// explicit append of Loop(best)
+	explicit := 0
+	loops := loopsOf(fn)
+	inAnyLoop := func(b *ssa.BasicBlock) bool {
+		for _, body := range loops {
+			if body[b] {
+				return true
+			}
+		}
+		return false
+	}
+	core.AllInstrs(fn, func(in ssa.Instruction) {
+		call, ok := in.(*ssa.Call)
+		if !ok {
+			return
+		}
+		if bi, ok := call.Call.Value.(*ssa.Builtin); !ok || bi.Name() != "append" || inAnyLoop(in.Block()) || len(call.Call.Args) < 2 {
+			return
+		}
+		for _, v := range variadicElems(call.Call.Args[1]) {
+			if lc, ok := v.(*ssa.Call); ok {
+				if f := core.StaticCallee(lc); f != nil && f.Name() == "Loop" && lc.Call.Args[1] == best {
+					explicit++
+				}
+			}
+		}
+	})
+	// the rebuilding loops: loops whose body appends and compares the index with best / lastBest
+	type rebuild struct{ header, body *ssa.BasicBlock }
+	var rbs []rebuild
+	for h, body := range loops {
+		hasAppend, usesBest := false, false
+		for b := range body {
+			for _, in := range b.Instrs {
+				if call, ok := in.(*ssa.Call); ok {
+					if bi, ok := call.Call.Value.(*ssa.Builtin); ok && bi.Name() == "append" {
+						hasAppend = true
+					}
+				}
+				if bo, ok := in.(*ssa.BinOp); ok && (bo.Y == best || bo.Y == ssa.Value(last)) {
+					usesBest = true
+				}
+			}
+		}
+		if hasAppend && usesBest && h.Dominates(h) {
+			for _, s := range h.Succs {
+				if body[s] {
+					rbs = append(rbs, rebuild{h, s})
+				}
+			}
+		}
+	}
+	sort.Slice(rbs, func(i, j int) bool { return rbs[i].header.Index < rbs[j].header.Index })
+	var diffs []string
+	if len(rbs) != 2 {
+		diffs = append(diffs, fmt.Sprintf("%d rebuilding loops found, 2 expected (former siblings, former children)", len(rbs)))
+	}
+	if explicit != 1 {
+		diffs = append(diffs, fmt.Sprintf("the inverted loop is appended %d times outside the loops, expected once", explicit))
+	}
+	if len(diffs) == 0 {
+		for _, lastBest := range []int64{2, 4} {
+			for i := int64(0); i <= lastBest+1; i++ {
+				count := 0
+				if i == 2 {
+					count += explicit
+				}
+				for _, rb := range rbs {
+					got := walkDecided(rb.body, rb.header, "builtin:append", func(cond ssa.Value) (bool, bool) {
+						bo, ok := cond.(*ssa.BinOp)
+						if !ok {
+							return false, false
+						}
+						var rhs int64
+						switch {
+						case bo.Y == best:
+							rhs = 2
+						case bo.Y == ssa.Value(last):
+							rhs = lastBest
+						default:
+							return false, false
+						}
+						switch bo.Op {
+						case token.LSS:
+							return i < rhs, true
+						case token.LEQ:
+							return i <= rhs, true
+						case token.GTR:
+							return i > rhs, true
+						case token.GEQ:
+							return i >= rhs, true
+						case token.EQL:
+							return i == rhs, true
+						case token.NEQ:
+							return i != rhs, true
+						}
+						return false, false
+					})
+					switch got {
+					case "action":
+						count++
+					case "back":
+					default:
+						diffs = append(diffs, "a rebuilding loop's condition could not be folded ("+got+")")
+					}
+				}
+				if count != 1 {
+					diffs = append(diffs, fmt.Sprintf("with best=2, lastDescendant=%d the loop at index %d is kept %d times", lastBest, i, count))
+				}
+			}
+		}
+	}
+	sort.Strings(diffs)
+	if len(diffs) == 0 {
+		obs = append(obs, core.Ob("R-PARTITION", "Polygon.Invert:loops-kept-once", c.Pos(fn.Pos()), core.FuncName(fn), core.Discharged,
+			"the inverted loop, the former siblings (i < best or i > last) and the former children (best < i <= last) partition all loop indices"))
+	} else {
+		if len(diffs) > 4 {
+			diffs = diffs[:4]
+		}
+		obs = append(obs, core.Ob("R-PARTITION", "Polygon.Invert:loops-kept-once", c.Pos(fn.Pos()), core.FuncName(fn), core.Violated,
+			"Invert does not keep every loop exactly once: "+strings.Join(diffs, "; ")))
+	}
+	return obs
 }
